@@ -7,7 +7,9 @@ mod checks;
 mod clock;
 mod outcome;
 mod rng;
+mod rows;
 mod sim;
+mod simmeta;
 mod util;
 
 use outcome::{Outcome, RunInfo};
